@@ -215,7 +215,7 @@ func TestVerif_C09(t *testing.T) {
 					continue
 				}
 				// mutations of an accepted certificate
-				for _, mut := range []string{"mask-bit", "sig-byte", "hash", "time-shift", "round-zero"} {
+				for _, mut := range []string{"mask-bit", "mask-move", "mask-move", "sig-byte", "hash", "time-shift", "round-zero"} {
 					m := s
 					ms := *s.Signature
 					m.Signature = &ms
@@ -225,6 +225,21 @@ func TestVerif_C09(t *testing.T) {
 						if m.Signature.Mask == 0 {
 							continue
 						}
+					case "mask-move":
+						// same number of signers, one of them replaced by a non-signer (same popcount)
+						var set, unset []int
+						for b := 0; b < len(cids); b++ {
+							if m.Signature.Mask&(1<<uint(b)) != 0 {
+								set = append(set, b)
+							} else {
+								unset = append(unset, b)
+							}
+						}
+						if len(set) == 0 || len(unset) == 0 {
+							continue
+						}
+						m.Signature.Mask ^= 1 << uint(set[rng.Intn(len(set))])
+						m.Signature.Mask ^= 1 << uint(unset[rng.Intn(len(unset))])
 					case "sig-byte":
 						m.Signature.Signature[rng.Intn(64)] ^= byte(1 << uint(rng.Intn(8)))
 					case "hash":
